@@ -27,6 +27,10 @@ ASSUMPTIONS = ["mf/reader.py identifies comment tokens (cross-checked against th
 DOMAIN = gen.DOMAIN + ["documents whose strings contain the default quote character or a backslash are not printed (documented limitation)"]
 
 
+PRINT_OPTS = [dict(), dict(align_values=True), dict(indent=2, align_values=True, quote="'"), dict(end_comment=True, newlinechar="\r\n"),
+              dict(indent=0), dict(spacer="\t", indent=1, align_values=True), dict(separate_complex_types=True)]
+
+
 def h(s):
     return hashlib.sha1(s.encode()).hexdigest()[:12]
 
@@ -98,11 +102,12 @@ def judge(ctx, eng, front, text, label, ident):
         res.count("not_accepted:" + label)
         return
     pref = core.plain(plain_d)
-    printable = not (relations.contains_quote(plain_d, '"') or relations.has_backslash(plain_d))
+    popts = PRINT_OPTS[sum(map(ord, ident)) % len(PRINT_OPTS)]
+    printable = not (relations.contains_quote(plain_d, popts.get("quote", '"')) or relations.has_backslash(plain_d))
     ref_out = None
     if printable:
         try:
-            ref_out = eng.dumps(plain_d)
+            ref_out = eng.dumps(plain_d, **popts)
             ref_tokens = non_comment_tokens(ref_out)
         except Exception as ex:
             res.count("plain-print-failed:" + type(ex).__name__)
@@ -140,14 +145,23 @@ def judge(ctx, eng, front, text, label, ident):
             continue
         res.count("print_comparisons")
         try:
-            out = eng.dumps(d)
+            out = eng.dumps(d, **popts)
         except Exception as ex:
             res.violation("bookkept-dictionary-does-not-print", case, f"{type(ex).__name__}: {str(ex)[:300]}", None)
             continue
+        case["print_options"] = popts
         if not c:
             if out != ref_out:
                 res.violation("position-data-changes-output", dict(case, out=out[:2000]), None, None)
             continue
+        # with comments kept: comment text aside, the layout of the remaining tokens is the same too (line by line)
+        if p and "\r" not in text:  # (open() translates CR inside comment text: known finding cr-in-string-value)
+            try:
+                oc = eng.dumps(eng.loads(text, include_comments=True), **popts)
+                if oc != out:
+                    res.violation("position-data-changes-output", dict(case, out=out[:2000], without_position=oc[:2000]), None, None)
+            except Exception:
+                pass
         try:
             toks = non_comment_tokens(out)
         except reader.ScanError as ex:
